@@ -122,6 +122,51 @@ CHECKS = {
             "once; no handler after the drop began; the drop returns (watchdog).", S_NOTE, "5/C19"),
 }
 
+# what the other engines add for a property (appended to the level text)
+EXTRA = {
+    "C01": " Engine M (shuttle mirror, preemption-bounded DFS, bound 1-2/3): a Scheduler clone on a second thread issues each "
+           "schedule* variant (plain, keyed, periodic, keyed periodic, source action) exactly while the simulation steps or "
+           "runs step_until; every accepted action fires at its deadline, none fires at a time later than its deadline, "
+           "observed times never decrease.",
+    "C02": " Engine M: the triangle and relay benches on the real multi-threaded executor (2 workers) under every schedule "
+           "within the preemption bound, same oracle.",
+    "C03": " Engine M: fan-out, contended-recipient and source benches on the real multi-threaded executor, same oracle.",
+    "C04": " Engine M: six of the same invariant-outcome benches on the real 2/3-worker executor under every schedule within "
+           "the preemption bound: the outcome must equal the single-threaded reference; executor-only scenarios (tasks "
+           "waking each other across workers, a second round after quiescence) must run every task before run() returns; "
+           "600 wake-ups issued by one poll overflow the local queue into the injector (default schedule). Engine L: the "
+           "worker idle protocol (push to injector / deactivate / last-searcher re-check) on the real PoolManager and "
+           "Injector under loom: never a task left while every worker is idle. Engine Q: every push/pop_bucket/drain "
+           "sequence on the real Injector against a VecDeque-of-buckets reference.",
+    "C05": " Engine M: blocked-sender and concurrent-waker benches on the real 2-worker executor (overlap flag per model). "
+           "Engine L: the task state machine under loom never polls one future from two threads at once.",
+    "C06": " Engine M: healthy, deadlocking and message-losing benches on the real 2-worker executor: the per-worker message "
+           "counters must be folded before the executor decides quiescence (defect D4 was found here). Engine S also runs "
+           "history scenarios: a simulation built on a thread on which an earlier simulation panicked or was dropped with "
+           "messages in flight.",
+    "C07": " Engine Q: SeqFuture polled over every readiness pattern of up to 4 futures: strictly in order, each exactly "
+           "until ready, never polled after completion. Engine M: same-deadline batches on the 2-worker executor.",
+    "C08": " Engine M: a foreign thread scheduling at every deadline class exactly while step/step_until commits the new "
+           "time (defect D5 was found here at preemption bound 1).",
+    "C12": " Engine L: the real queue under loom (2 producers + consumer, capacities 1-2, close while pushing): no lost, "
+           "duplicated or torn message, per-producer FIFO. Engine M: the real Sender/Receiver (async-event + diatomic-waker) "
+           "under the preemption-bounded DFS: 1-3 producer threads x 1-3 messages on capacity 1-2 (senders do block), "
+           "receiver draining or closing after 2 receptions: accepted = received (exactly once), per-producer FIFO, "
+           "every send completes or reports closure, no lost wake-up (a hang is a violation).",
+    "C14": " Engine L: CachedRwLock under loom (reader caches vs concurrent writer). Engine M: TaskSet wake/steal protocol of "
+           "the source BroadcastFuture under the preemption-bounded DFS with resizing between uses.",
+    "C15": " Engine M: Scheduler::time() read on a foreign thread before and after it schedules, while the simulation runs "
+           "step_until: never decreases; times seen by handlers and by the driver never decrease.",
+    "C17": " Engine M: two models on two workers writing to one EventBuffer at and around capacity, reader on the driver "
+           "thread: per-writer order kept, length never above capacity, a closed buffer accepts nothing.",
+    "C18": " Engine M: step_until under a recording clock while a foreign thread schedules at or before the target "
+           "(every scheduling entry point): arguments of synchronize strictly increase, no handler observes a time "
+           "smaller than an earlier one, the accepted action runs at its deadline.",
+    "C19": " Engine M: the simulation dropped on the 2-worker executor (blocked senders, pending query, queued actions) "
+           "and the bare executor dropped after a timeout / with tasks that wake each other while being dropped: every "
+           "token and future dropped exactly once, the drop returns.",
+}
+
 NOT_YET = {}
 
 
@@ -140,7 +185,7 @@ def main():
                 "evidence_file": "/verif/evidence/%s.json" % pid,
                 "replay_cmd_template": "./check %s --replay {path}" % pid,
                 "engine": eng,
-                "level_claimed": {"category": cat, "text": text, "design_ref": "DESIGN.md section " + ref},
+                "level_claimed": {"category": cat, "text": text + EXTRA.get(pid, ""), "design_ref": "DESIGN.md section " + ref},
                 "level_note": note,
                 "technique": tech,
             })
